@@ -196,7 +196,9 @@ class Checker:
                     _,m=self.recv_inst(conv(s.class_type))
                     if len(s.args)!=len(sd.fields): self.alarm('super-arity',path,None,None)
                     for a,f in zip(s.args,sd.fields):
-                        try: self.expect('super-arg',path,self.synth(a,path,csc),self.inst_type(f.field_type,m,{},reading=False))
+                        try:
+                            ft=self.inst_type(f.field_type,m,{},reading=False)
+                            self.expect('super-arg',path,self.synth(a,path,csc,ft),ft)
                         except Unknown as u: self.stats['unknown:'+str(u)]+=1
                 except Unknown as u: self.stats['unknown:'+str(u)]+=1
         for f in d.functions: self.func(f,path+[f.name],csc)
@@ -235,7 +237,9 @@ class Checker:
         fsc=Scope(self,sc,func=f)
         for p in f.params:
             if p.default is not None:
-                try: self.expect('param-default',path,self.synth(p.default,path,sc),conv_any(p.param_type))
+                try:
+                    pt=conv_any(p.param_type)
+                    self.expect('param-default',path,self.synth(p.default,path,sc,pt),pt)
                 except Unknown as u: self.stats['unknown:'+str(u)]+=1
             fsc.add_var(p.name,p)
         if f.body is None: return
@@ -331,7 +335,7 @@ class Checker:
         if isinstance(e, ast.ArrayExpr):
             T=conv(e.array_type)
             for x in e.exprs:
-                try: self.expect('array-elem',path,self.synth(x,path,sc),T[2][0][1])
+                try: self.expect('array-elem',path,self.synth(x,path,sc,T[2][0][1]),T[2][0][1])
                 except Unknown as u: self.stats['unknown:'+str(u)]+=1
             return T
         if isinstance(e, ast.Lambda):
@@ -380,47 +384,43 @@ class Checker:
             return self.call(e,path,sc)
         raise Unknown('expr-kind:'+type(e).__name__)
     def diamond(self,e,d,T,path,sc,expected):
+        """omitted constructor type arguments (inference mode).  Only the DEFINITE failure is reported: in
+        Kotlin a type parameter that occurs in no constructor parameter type, is not linked to one through a
+        bound and gets no expected type cannot be inferred ("not enough information to infer type variable").
+        Java/Groovy fall back to the bound/Object, Scala to Nothing; Java is judged by javac."""
         self.stats['diamond']+=1
-        alpha={}
-        src={}
-        if expected is not None and expected[0]=='c' and expected[1]==T[1] and all(a[0]=='t' for a in expected[2]):
-            for p,a in zip(d.type_parameters,expected[2]): alpha[p.name]=a[1]; src[p.name]='expected'
-        elif expected is not None and expected[0]=='c' and expected[1]==T[1]:
-            for p,a in zip(d.type_parameters,expected[2]):
-                if a[0]=='t': alpha[p.name]=a[1]; src[p.name]='expected'
-                elif a[0]!='*': alpha.setdefault(p.name,a[1]); src[p.name]='expected-proj'
-        argts=[]
-        for a,f in zip(e.args,d.fields):
-            try: at=self.synth(a,path,sc)
-            except Unknown: at=None
-            argts.append(at)
-            ft=conv_any(f.field_type)
-            if ft[0]=='v' and ft[1] not in alpha and at is not None and at!=NOTHING:
-                alpha[ft[1]]=at; src[ft[1]]='arg'
-            elif ft[0]=='c' and at is not None and at[0]=='c' and at[1]==ft[1]:
-                for x,y in zip(ft[2],at[2]):
-                    if x[0]=='t' and x[1][0]=='v' and y[0]=='t' and x[1][1] not in alpha: alpha[x[1][1]]=y[1]; src[x[1][1]]='arg-nested'
-        # bounds mentioning other vars: T2: T1
-        for p in d.type_parameters:
-            if p.name not in alpha and p.bound is not None and isinstance(p.bound, tp.TypeParameter) and p.bound.name in alpha:
-                alpha[p.name]=alpha[p.bound.name]; src[p.name]='bound'
-        missing=[p.name for p in d.type_parameters if p.name not in alpha]
-        if missing:
+        def occurs(t,name):
+            if t[0]=='v': return t[1]==name
+            if t[0]=='c': return any(a[0]!='*' and occurs(a[1],name) for a in t[2])
+            return False
+        have_expected = expected is not None and expected[0]=='c' and expected[1]==T[1]
+        determinable=set()
+        for f in d.fields:
+            try: ft=conv_any(f.field_type)
+            except Unknown: continue
+            for p in d.type_parameters:
+                if occurs(ft,p.name): determinable.add(p.name)
+        changed=True
+        while changed:
+            changed=False
+            for p in d.type_parameters:
+                if p.name not in determinable and p.bound is not None:
+                    try: b=conv_bound(p.bound)
+                    except Unknown: b=None
+                    if b is not None and any(occurs(b,q) for q in determinable):
+                        determinable.add(p.name); changed=True
+        missing=[p.name for p in d.type_parameters if p.name not in determinable]
+        if missing and not have_expected and self.lang=='kotlin':
             self.stats['diamond-uninferable']+=1
-            self.alarm('diamond-uninferable',path,T,expected,'missing %s; expected=%s; args=%s; fields=%s'%(missing,show(expected),[show(x) for x in argts],[str(f.field_type) for f in d.fields]))
-            return T
-        inf=('c',T[1],tuple(('t',alpha[p.name]) for p in d.type_parameters))
-        rec=('c',T[1],tuple(('t',a[1]) if a[0]!='*' else a for a in T[2]))
-        if inf!=T:
-            self.stats['diamond-differs']+=1
-            if not self.le(inf,T) and not (expected is not None and self.le(inf,expected)):
-                self.alarm('diamond-inferred-incompatible',path,T,inf,'expected=%s src=%s'%(show(expected),src))
-        else: self.stats['diamond-same']+=1
-        m={p.name:('t',alpha[p.name]) for p in d.type_parameters}
-        for a,f,at in zip(e.args,d.fields,argts):
-            try: self.expect('new-arg-inferred',path,at,self.inst_type(f.field_type,m,{},reading=False))
+            self.alarm('kotlin-cannot-infer-type-argument',path,T,expected,'type parameter(s) %s of %s occur in no constructor parameter'%(missing,T[1]))
+        m={p.name:a for p,a in zip(d.type_parameters,T[2])}
+        for a,f in zip(e.args,d.fields):
+            try:
+                try: ft=self.inst_type(f.field_type,m,{},reading=False)
+                except Unknown: ft=None
+                self.synth(a,path,sc,ft)
             except Unknown as u: self.stats['unknown:'+str(u)]+=1
-        return inf
+        return T
     def _apply_recv(self,t,m,reading):
         mm={}
         for k,a in m.items():
@@ -520,7 +520,7 @@ class Checker:
             try:
                 if p[0]=='t' or p[0]=='in': pt=p[1]
                 else: raise Unknown('refcall-param-out/star')
-                self.expect('refcall-arg',path,self.synth(a.expr,path,sc),pt)
+                self.expect('refcall-arg',path,self.synth(a.expr,path,sc,pt),pt)
             except Unknown as u: self.stats['unknown:'+str(u)]+=1
         r=sig[2][-1]
         if r[0] in ('t','out'): return r[1]
